@@ -569,7 +569,7 @@ func (d *fakeDir) Close() error {
 	t := d.w.cur()
 	l := d.label("Close")
 	d.w.use(t, l)
-	failed := d.w.fault(t, l, "", 32)
+	failed := d.w.fault(t, l, d.n.name, 32)
 	d.w.mu.Lock()
 	defer d.w.mu.Unlock()
 	if d.n.openBy == t.name {
